@@ -162,9 +162,104 @@ def extract_i2c(g):
     g.strings('i2cWriteCall', wr[0])
 
 
+def crc_masks(node, what):
+    """the `<m>` of every `crc32(...) & <m>` under node, in source order"""
+    res = []
+    for n in sorted((m for m in ast.walk(node) if isinstance(m, ast.BinOp) and isinstance(m.op, ast.BitAnd)), key=lambda m: (m.lineno, m.col_offset)):
+        if isinstance(n.left, ast.Call) and ast.unparse(n.left.func) == 'crc32':
+            res.append((ast.unparse(n.left.args[0]), int(ast.literal_eval(n.right))))
+    X.expect(res, what + ': no `crc32(...) & mask` found')
+    return res
+
+
+def extract_ow(g):
+    tree = X.parse('cflib/crazyflie/mem/ow_element.py')
+    cls = X.find(tree, 'OWElement')
+    em = None
+    for n in cls.body:
+        if isinstance(n, ast.Assign) and ast.unparse(n.targets[0]) == 'element_mapping':
+            em = ast.literal_eval(n.value)
+    X.expect(isinstance(em, dict) and all(isinstance(k, int) and isinstance(v, str) for k, v in em.items()), 'OWElement.element_mapping is not a literal {int: str}')
+    X.expect(len(set(em.values())) == len(em), 'OWElement.element_mapping names are not distinct')
+    g.nats('owIds', sorted(em))
+    g.strings('owNames', [em[k] for k in sorted(em)])
+    # write side
+    wd = X.find(cls, 'write_data')
+    sc = one_struct(wd, 'OWElement.write_data', n=6)
+    for name, c in zip(('owWHdr', 'owWHdrCrc', 'owWKeyLen', 'owWArea', 'owWAreaCrc'), sc[:5]):
+        emit_struct(g, name, c)
+    try:
+        g.nat('owWMagic', int(ast.literal_eval(sc[0]['args'][0])))
+    except Exception:
+        raise ExtractError('OWElement.write_data: first header field is not an integer literal: %s' % sc[0]['args'][:1])
+    cm = crc_masks(wd, 'OWElement.write_data')
+    g.strings('owWCrcArgs', [a for a, _ in cm])
+    g.nats('owWCrcMasks', [m for _, m in cm])
+    loops = [n for n in ast.walk(wd) if isinstance(n, ast.For)]
+    X.expect(len(loops) == 1, 'OWElement.write_data: expected one for loop')
+    g.string('owWLoopIter', ast.unparse(loops[0].iter))
+    a = assigns(wd)
+    for k in ('elem_string', 'key_encoding', 'data'):
+        X.expect(k in a, 'OWElement.write_data: assignment to %s not found' % k)
+    g.strings('owWAssigns', [ast.unparse(a['elem_string']), ast.unparse(a['key_encoding']), ast.unparse(a['data'])])
+    g.strings('owWAug', sorted(ast.unparse(n) for n in ast.walk(wd) if isinstance(n, ast.AugAssign)))
+    wr = call_args(wd, 'self.mem_handler.write')
+    X.expect(len(wr) == 1, 'OWElement.write_data: expected one mem_handler.write')
+    g.strings('owWriteCall', wr[0])
+    # read side
+    up = X.find(cls, 'update')
+    rd = call_args(up, 'self.mem_handler.read')
+    X.expect(len(rd) == 1 and rd[0][0] == 'self', 'OWElement.update: expected one mem_handler.read(self, a, n)')
+    g.nats('owRead1', int_args(rd[0][1:], 'OWElement.update read'))
+    nd = X.find(cls, 'new_data')
+    g.strings('owNewDataCompares', X.compares(nd))
+    ifs = sorted((n for n in ast.walk(nd) if isinstance(n, ast.If)), key=lambda n: (n.lineno, n.col_offset))
+    g.strings('owNewDataTests', [ast.unparse(n.test) for n in ifs])
+    sc = one_struct(nd, 'OWElement.new_data', n=1)
+    emit_struct(g, 'owLen', sc[0])
+    g.strings('owLenTargets', unpack_targets(nd)[0])
+    rd = call_args(nd, 'self.mem_handler.read')
+    X.expect(len(rd) == 1 and rd[0][0] == 'self' and len(rd[0]) == 3, 'OWElement.new_data: expected one mem_handler.read(self, a, n)')
+    g.nat('owRead2Addr', int_args(rd[0][1:2], 'OWElement.new_data read')[0])
+    n2 = ast.parse(rd[0][2], mode='eval').body
+    g.string('owRead2LenSrc', rd[0][2])
+    g.raw('def owRead2Len (elem_len : Nat) : Nat := ' + to_lean(n2, {'elem_len': 'elem_len'}))
+    g.strings('owHdrCallArgs', [x[0] for x in call_args(nd, 'self._parse_and_check_header')])
+    g.strings('owElemCallArgs', [x[0] for x in call_args(nd, 'self._parse_and_check_elements')])
+    ph = X.find(cls, '_parse_and_check_header')
+    sc = one_struct(ph, 'OWElement._parse_and_check_header', n=1)
+    emit_struct(g, 'owRHdr', sc[0])
+    g.strings('owRHdrTargets', unpack_targets(ph)[0])
+    cm = crc_masks(ph, '_parse_and_check_header')
+    g.strings('owRHdrCrcArgs', [a for a, _ in cm])
+    g.nats('owRHdrCrcMasks', [m for _, m in cm])
+    g.strings('owRHdrCompares', X.compares(ph))
+    start = [n for n in ast.walk(ph) if isinstance(n, ast.Compare) and ast.unparse(n.left) == 'start']
+    X.expect(len(start) == 1 and isinstance(start[0].ops[0], ast.Eq), '_parse_and_check_header: `start == <magic>` not found')
+    g.nat('owMagic', int(ast.literal_eval(start[0].comparators[0])))
+    pe = X.find(cls, '_parse_and_check_elements')
+    sc = one_struct(pe, 'OWElement._parse_and_check_elements', n=1)
+    emit_struct(g, 'owRTlv', sc[0])
+    g.strings('owRTlvTargets', unpack_targets(pe)[0])
+    cm = crc_masks(pe, '_parse_and_check_elements')
+    g.strings('owRElemCrcArgs', [a for a, _ in cm])
+    g.nats('owRElemCrcMasks', [m for _, m in cm])
+    g.strings('owRElemCompares', X.compares(pe))
+    a = assigns(pe)
+    for k in ('crc', 'elem_data', 'self.elements[self.element_mapping[eid]]'):
+        X.expect(k in a, '_parse_and_check_elements: assignment to %s not found' % k)
+    first = sorted((n for n in ast.walk(pe) if isinstance(n, ast.Assign) and ast.unparse(n.targets[0]) == 'elem_data'), key=lambda n: n.lineno)
+    g.strings('owRElemAssigns', [ast.unparse(a['crc']), ast.unparse(first[0].value), ast.unparse(first[-1].value),
+                                 ast.unparse(a['self.elements[self.element_mapping[eid]]'])])
+    loops = [n for n in ast.walk(pe) if isinstance(n, ast.While)]
+    X.expect(len(loops) == 1, '_parse_and_check_elements: expected one while loop')
+    g.string('owRLoopCond', ast.unparse(loops[0].test))
+
+
 def extract(ctx):
-    g = X.GenFile(PID, ['cflib/crazyflie/mem/i2c_element.py'])
+    g = X.GenFile(PID, ['cflib/crazyflie/mem/i2c_element.py', 'cflib/crazyflie/mem/ow_element.py'])
     extract_i2c(g)
+    extract_ow(g)
     return {'C14.lean': g.render()}
 
 
@@ -257,7 +352,7 @@ def real_i2c_parse(mem):
     else:
         f = '-'
     a = str(d['radio_address']) if 'radio_address' in d else '-'
-    return 'ok f=%s a=%s v=%d c=%d' % (f, a, 1 if el.valid else 0, len(called))
+    return 'ok f=%s a=%s V=%d C=%d' % (f, a, 1 if el.valid else 0, len(called))
 
 
 F32_EDGE = [0, 0x80000000, 1, 0x007FFFFF, 0x00800000, 0x3F800000, 0xBF800000, 0x7F7FFFFF, 0xFF7FFFFF, 0x7F800000, 0xFF800000,
@@ -337,7 +432,166 @@ def gen_i2c(ctx, cases):
         add_parse(bytes(mem), 'random')
 
 
-GENERATORS = [gen_i2c]
+# ---- 1-wire ---------------------------------------------------------------------------------------------
+def _ow_names():
+    from cflib.crazyflie.mem.ow_element import OWElement
+    return dict(OWElement.element_mapping)
+
+
+def real_ow_write(pins, vid, pid, elems):
+    """elems: list of (id, [code points]) in dict insertion order; id 0 = a name that is not in the mapping"""
+    _quiet()
+    from cflib.crazyflie.mem.ow_element import OWElement
+    names = _ow_names()
+    h = FakeMemHandler()
+    el = OWElement(1, 1, 112, 0, h)
+    el.pins, el.vid, el.pid = pins, vid, pid
+    el.elements = {}
+    for k, cps in elems:
+        el.elements[names.get(k, 'No such element %d' % k)] = ''.join(chr(c) for c in cps)
+    try:
+        el.write_data(lambda *a: None)
+    except Exception as e:
+        return 'err ' + exc_enum(e)
+    if len(h.writes) != 1 or h.writes[0][0] != 0:
+        return 'other writes=%r' % (h.writes,)
+    return 'ok ' + hexs(h.writes[0][1])
+
+
+def real_ow_parse(mem):
+    _quiet()
+    from cflib.crazyflie.mem.ow_element import OWElement
+    rev = {v: k for k, v in _ow_names().items()}
+    h = FakeMemHandler(mem)
+    el = OWElement(1, 1, 112, 0, h)
+    called = []
+    try:
+        el.update(lambda m: called.append(m.valid))
+        h.run()
+    except Exception as e:
+        return 'err ' + exc_enum(e)
+    es = ','.join('%d:%s' % (rev[k], hexs(v.encode('ISO-8859-1'))) for k, v in el.elements.items()) or '-'
+    return 'ok p=%d v=%d i=%d e=%s V=%d C=%d' % (el.pins, el.vid, el.pid, es, 1 if el.valid else 0, len(called))
+
+
+def ow_image(pins, vid, pid, elems):
+    """independent construction of a correctly formed image (spec twin; elems in WRITE order: (id, bytes))"""
+    hdr = struct.pack('<BIBB', 0xEB, pins, vid, pid)
+    hdr += bytes([crc32(hdr) & 0xFF])
+    body = b''.join(bytes([k, len(v)]) + v for k, v in elems)
+    area = bytes([0, len(body)]) + body
+    return hdr + area + bytes([crc32(area) & 0xFF])
+
+
+def fmt_ow_elems(elems):
+    return ','.join('%d:%s' % (k, '.'.join(str(c) for c in cps)) for k, cps in elems) or '-'
+
+
+def rnd_ow_elems(rng, malformed=False):
+    ids = [1, 2, 3]
+    rng.shuffle(ids)
+    ids = ids[:rng.choice([0, 1, 1, 2, 2, 3])]
+    if malformed and rng.random() < 0.3:
+        ids.insert(rng.randrange(len(ids) + 1), 0)
+    elems = []
+    for k in ids:
+        n = rng.choice([0, 1, 2, 3, 5, 8, 20, 72, 100, 174, 253]) if rng.random() < 0.8 else rng.randrange(0, 254)
+        if malformed and rng.random() < 0.1:
+            n = rng.choice([254, 255, 256, 300])
+        cps = [rng.choice([65, 97, 48, 32, 0, 255, 0xE9]) if rng.random() < 0.3 else rng.randrange(256) for _ in range(n)]
+        if malformed and cps and rng.random() < 0.15:
+            cps[rng.randrange(len(cps))] = rng.choice([256, 0x20AC, 0x1F600])
+        elems.append((k, cps))
+    return elems
+
+
+def ow_collision_elems(rng):
+    """element dicts whose section length / first id hit the `data[9:11]` shortcut of the unrepaired code (D12)"""
+    tot, first = rng.choice([(5, 2), (74, 3), (176, 1)])
+    others = [i for i in (1, 2, 3) if i != first]
+    rng.shuffle(others)
+    k = rng.choice([0, 1]) if tot > 5 else 0
+    rest = others[:k]
+    budget = tot - 2 * (1 + len(rest))
+    lens = []
+    for _ in rest:
+        x = rng.randrange(0, budget + 1)
+        lens.append(x)
+        budget -= x
+    elems_w = [(first, budget)] + list(zip(rest, lens))        # write order
+    elems = [(i, [rng.randrange(256) for _ in range(n)]) for i, n in elems_w]
+    return list(reversed(elems))                                # dict order = reversed write order
+
+
+def gen_ow(ctx, cases):
+    rng = ctx.rng
+    thorough = ctx.tier == 'thorough'
+    for _ in range(60 if thorough else 20):
+        d = bytes(rng.randrange(256) for _ in range(rng.choice([0, 1, 2, 7, 8, 33, 100])))
+        cases.append(('crc32', 'crc32 ' + hexs(d), (lambda d=d: 'ok %d' % crc32(d)), None, {'op': 'crc32', 'len': len(d)}, ('crc32', d)))
+    images = []
+
+    def add_write(pins, vid, pid, elems, why):
+        line = 'ow_write %d %d %d %s' % (pins, vid, pid, fmt_ow_elems(elems))
+        cases.append(('ow_write', line, (lambda: real_ow_write(pins, vid, pid, elems)), None,
+                      {'op': 'ow_write', 'why': why, 'pins': pins, 'vid': vid, 'pid': pid, 'elems': [(k, len(c)) for k, c in elems]},
+                      ('ow_write', pins, vid, pid, fmt_ow_elems(elems))))
+    for t in range(1200 if thorough else 260):
+        pins = rng.choice([0, 0x0C, 0xFFFFFFFF, 1 << 32, -1]) if rng.random() < 0.3 else rng.getrandbits(32)
+        vid = rng.choice([0, 0xBC, 255, 256, -1]) if rng.random() < 0.4 else rng.randrange(256)
+        pid = rng.choice([0, 1, 255, 256]) if rng.random() < 0.4 else rng.randrange(256)
+        k = rng.random()
+        elems = ow_collision_elems(rng) if k < 0.15 else rnd_ow_elems(rng, malformed=k > 0.7)
+        add_write(pins, vid, pid, elems, 'collision' if k < 0.15 else 'random')
+        if 0 <= pins < (1 << 32) and 0 <= vid < 256 and 0 <= pid < 256 and all(i in (1, 2, 3) and len(c) < 256 and all(x < 256 for x in c) for i, c in elems) \
+                and sum(2 + len(c) for _, c in elems) < 256:
+            images.append(ow_image(pins, vid, pid, [(i, bytes(c)) for i, c in reversed(elems)]))
+    # every section length 0..255 with every first id (one element, padded by a second one when it does not fit)
+    for tot in (range(0, 256) if thorough else list(range(0, 12)) + [37, 38, 39, 73, 74, 75, 104, 105, 106, 146, 147, 148, 175, 176, 177, 254, 255]):
+        for first in (1, 2, 3):
+            if tot == 0:
+                elems = []
+            elif tot == 1:
+                continue
+            else:
+                elems = [(first, [rng.randrange(256) for _ in range(tot - 2)])]
+            add_write(0x0C, 0xBC, first, elems, 'len=%d' % tot)
+            images.append(ow_image(0x0C, 0xBC, first, [(i, bytes(c)) for i, c in reversed(elems)]))
+
+    def add_parse(mem, why):
+        line = 'ow_parse ' + hexs(mem)
+        cases.append(('ow_parse', line, (lambda m=mem: real_ow_parse(m)), None,
+                      {'op': 'ow_parse', 'why': why, 'mem': bytes(mem).hex()[:80], 'len': len(mem)}, ('ow_parse', bytes(mem))))
+    for k, im in enumerate(images):
+        tail = bytes(rng.choice([0xFF, rng.randrange(256)]) for _ in range(rng.choice([0, 3, 20, 112])))
+        add_parse(im + tail, 'written')
+        if k % (3 if thorough else 12) == 0:
+            for _ in range(30 if thorough else 10):        # corruptions (also of the CRC bytes and the length byte)
+                m2 = bytearray(im + tail)
+                i = rng.choice([0, 7, 8, 9, 10, len(im) - 1, rng.randrange(len(im))])
+                m2[i] ^= rng.choice([1, 0x80, 0xFF, rng.randrange(1, 256)])
+                add_parse(bytes(m2), 'corrupt@%d' % i)
+    # malformed but CRC-correct TLV areas: unknown ids, lengths running past the end, a dangling byte, duplicate ids
+    for _ in range(300 if thorough else 80):
+        body = bytearray()
+        for _ in range(rng.randrange(0, 4)):
+            eid = rng.choice([1, 2, 3, 1, 2, 3, 0, 4, 255])
+            n = rng.choice([0, 1, 3, 10])
+            body += bytes([eid, n if rng.random() < 0.8 else n + rng.randrange(1, 5)]) + bytes(rng.randrange(256) for _ in range(n))
+        if rng.random() < 0.2:
+            body += bytes([rng.choice([1, 2, 3])])
+        hdr = struct.pack('<BIBB', rng.choice([0xEB] * 9 + [0xEA]), rng.getrandbits(32), rng.randrange(256), rng.randrange(256))
+        hdr += bytes([crc32(hdr) & 0xFF])
+        ln = len(body) if rng.random() < 0.85 else rng.randrange(256)
+        area = bytes([rng.choice([0, 0, 1]), ln]) + body
+        mem = hdr + area + bytes([crc32(area) & 0xFF]) + bytes(rng.randrange(256) for _ in range(rng.choice([0, 4, 30])))
+        add_parse(mem, 'malformed-tlv')
+    for _ in range(200 if thorough else 50):
+        n = rng.choice([0, 1, 7, 8, 9, 10, 11, 12, 20, 40])
+        add_parse(bytes(rng.randrange(256) for _ in range(n)), 'random')
+
+
+GENERATORS = [gen_i2c, gen_ow]
 
 
 def correspond(ctx):
@@ -354,7 +608,7 @@ def correspond(ctx):
         w = real.split(' ')
         ctx.count('result:' + kind + ':' + w[0] + (':' + w[1] if w[0] == 'err' and len(w) > 1 else ''))
         if kind.endswith('_parse') and real.startswith('ok'):
-            ctx.count('parse:' + kind + ':' + ' '.join(x for x in w if x.startswith(('v=', 'c='))))
+            ctx.count('parse:' + kind + ':' + ' '.join(x for x in w if x.startswith(('V=', 'C='))))
         ctx.case(desc, key)
         if real != model:
             ctx.disagree(kind, line[:400], model[:400], real[:400])
@@ -380,7 +634,84 @@ def search(ctx):
         im = bytes.fromhex(w[3:])
         old = bytes(rng.randrange(256) for _ in range(32))
         mem = im + old[len(im):]
-        want = 'ok f=%d,%d,%d,%d,%d a=%s v=1 c=1' % (v, ch, sp, p, r, a if v == 1 else '-')
+        want = 'ok f=%d,%d,%d,%d,%d a=%s V=1 C=1' % (v, ch, sp, p, r, a if v == 1 else '-')
         got = real_i2c_parse(mem)
         if got != want:
             ctx.witness('i2c-roundtrip', 'EEPROM image does not parse back to the written content', inp, got=got, want=want)
+
+        # every single corrupted byte of the image must be detected (D13: except a colliding version byte)
+        if t % 10 == 0:
+            for i in range(len(im)):
+                for nb in (range(256) if (i == 4 or ctx.tier == 'thorough') else {0, 1, 0xFF, im[i] ^ 1, im[i] ^ 0x80, rng.randrange(256)}):
+                    if nb == im[i]:
+                        continue
+                    m2 = bytearray(mem)
+                    m2[i] = nb
+                    got = real_i2c_parse(bytes(m2))
+                    if ' V=1' in got:
+                        key = 'D13-eeprom-version-byte' if i == 4 else 'i2c-corruption-undetected'
+                        ctx.witness(key, 'EEPROM image with one corrupted byte is reported valid', dict(inp, image=im.hex(), index=i, new_byte=nb, memory=bytes(m2).hex()), got=got)
+    # D13, the committed witness (Props/C14 d13Image): version byte 1 -> 0 of the image of channel 80, speed 2, address 0x7FE7E7E7E7
+    w = real_i2c_write(1, 80, 2, 0, 0, 0x7FE7E7E7E7)
+    if w.startswith('ok '):
+        m2 = bytearray(bytes.fromhex(w[3:]) + bytes(11))
+        m2[4] = 0
+        got = real_i2c_parse(bytes(m2))
+        if ' V=1' in got:
+            ctx.witness('D13-eeprom-version-byte', 'EEPROM image with one corrupted byte is reported valid',
+                        {'version': 1, 'channel': 80, 'speed': 2, 'pitch': 0, 'roll': 0, 'address': 0x7FE7E7E7E7, 'image': w[3:], 'index': 4, 'new_byte': 0}, got=got)
+
+    # 1-wire: round trip for every representable content (every section length, every first element id), validity
+    def ow_roundtrip(pins, vid, pid, elems, why):
+        inp = {'pins': pins, 'vid': vid, 'pid': pid, 'elements': [(k, bytes(c).hex()) for k, c in elems], 'why': why}
+        w = real_ow_write(pins, vid, pid, elems)
+        if not w.startswith('ok '):
+            ctx.witness('ow-write-rejected', 'representable 1-wire content cannot be written', inp, got=w)
+            return
+        im = bytes.fromhex(w[3:])
+        want_im = ow_image(pins, vid, pid, [(k, bytes(c)) for k, c in reversed(elems)])
+        if im != want_im:
+            ctx.witness('ow-layout', '1-wire image differs from the layout the firmware reads', inp, got=im.hex(), want=want_im.hex())
+        mem = im + bytes(0xFF for _ in range(max(0, 112 - len(im))))
+        got = real_ow_parse(mem)
+        # dict equality: same key -> value map (order is not part of the content)
+        want = {k: bytes(c) for k, c in elems}
+        ok = False
+        if got.startswith('ok '):
+            f = dict(x.split('=') for x in got[3:].split(' '))
+            gd = {} if f['e'] == '-' else {int(x.split(':')[0]): (b'' if x.split(':')[1] == '-' else bytes.fromhex(x.split(':')[1])) for x in f['e'].split(',')}
+            ok = (int(f['p']), int(f['v']), int(f['i'])) == (pins, vid, pid) and gd == want and f['V'] == '1' and f['C'] == '1'
+        if not ok:
+            sec = sum(2 + len(c) for _, c in elems)
+            first = elems[-1][0] if elems else None
+            key = 'D12-ow-shortcut' if (sec, first) in ((5, 2), (74, 3), (176, 1)) else 'ow-roundtrip'
+            ctx.witness(key, '1-wire image written by the library does not parse back to the written content',
+                        dict(inp, image=im.hex(), section_length=sec, first_id=first), got=got)
+    ow_roundtrip(0x0C, 0xBC, 1, [(2, [97, 98, 99])], 'D12 witness of Props/C14')
+    for tot in range(0, 256):
+        for first in (1, 2, 3):
+            if tot == 1:
+                continue
+            elems = [] if tot == 0 else [(first, [rng.randrange(256) for _ in range(tot - 2)])]
+            ow_roundtrip(rng.getrandbits(32), rng.randrange(256), rng.randrange(256), elems, 'every length')
+    for t in range(n):
+        elems = ow_collision_elems(rng) if rng.random() < 0.1 else rnd_ow_elems(rng)
+        if sum(2 + len(c) for _, c in elems) > 255:
+            continue
+        ow_roundtrip(rng.getrandbits(32), rng.randrange(256), rng.randrange(256), elems, 'random')
+    # validity follows the CRC: corrupt one byte of the header or element section of a written image
+    for t in range(n):
+        elems = rnd_ow_elems(rng)
+        if sum(2 + len(c) for _, c in elems) > 255:
+            continue
+        im = bytearray(ow_image(rng.getrandbits(32), rng.randrange(256), rng.randrange(256), [(k, bytes(c)) for k, c in reversed(elems)]))
+        i = rng.randrange(len(im))
+        im[i] ^= rng.randrange(1, 256)
+        hdr_ok = im[0] == 0xEB and (crc32(bytes(im[:7])) & 0xFF) == im[7]
+        ln = im[9]
+        sect = bytes(im[8:8 + ln + 3])
+        sec_ok = len(sect) == ln + 3 and (crc32(sect[:-1]) & 0xFF) == sect[-1]
+        got = real_ow_parse(bytes(im) + bytes(300))
+        if got.startswith('ok ') and (' V=1' in got) != (hdr_ok and sec_ok):
+            ctx.witness('ow-valid-vs-crc', '1-wire validity verdict differs from the recomputed CRCs',
+                        {'memory': bytes(im).hex(), 'corrupted_index': i, 'header_crc_ok': hdr_ok, 'section_crc_ok': sec_ok}, got=got)
